@@ -86,8 +86,28 @@ def entry_st(draw):
     return f"{from_int(fam, base)}/{plen}"
 
 
+@st.composite
+def nested_list(draw):
+    """Entries that contain each other (narrow and broad, in either order), plus an unrelated one sometimes."""
+    e = draw(entry_st())
+    p = parse_entry(e)
+    fam, base, plen, bits = p
+    out = [e]
+    for _ in range(draw(st.integers(1, 2))):
+        if draw(st.booleans()) and plen > 0:
+            pl2 = draw(st.integers(0, plen - 1))  # broader
+        else:
+            pl2 = draw(st.integers(plen, bits))   # narrower (or equal)
+        off = draw(st.integers(0, (1 << (bits - plen)) - 1)) if pl2 >= plen else 0
+        b2 = ((base + off) >> (bits - pl2)) << (bits - pl2) if pl2 else 0
+        out.append(f"{from_int(fam, b2)}/{pl2}" if draw(st.integers(0, 3)) or pl2 != bits else from_int(fam, b2))
+    if draw(st.booleans()):
+        out.append(draw(entry_st()))
+    return draw(st.permutations(out))
+
+
 def lists_st():
-    return st.one_of(st.none(), st.none(), st.just([]), st.lists(entry_st(), min_size=1, max_size=3))
+    return st.one_of(st.none(), st.none(), st.just([]), st.lists(entry_st(), min_size=1, max_size=3), nested_list(), nested_list())
 
 
 MALFORMED_PEERS = ["unknown", "", "not-an-ip", "300.1.1.1", "1.2.3", "1.2.3.4.5", "::g", "1.2.3.4 ", " 1.2.3.4", "0x7f.1", "127.1",
@@ -258,7 +278,7 @@ def run_case(case: dict):
 
 # ------------------------------------------------------------------ invalid entries
 
-INVALID = ["not-an-ip", "300.1.1.1", "1.2.3.4/33", "::1/129", "", "1.2.3.4/-1", "10.0.0.0/8/8", "1.2.3", "::g/64", "10.0.0.0/ 8", "/24"]
+INVALID = ["not-an-ip", "300.1.1.1", "1.2.3.4/33", "::1/129", "", " ", "\t", "10.1.0.0/16 ", "1.2.3.4/-1", "10.0.0.0/8/8", "1.2.3", "::g/64", "10.0.0.0/ 8", "/24"]
 HOSTBITS = ["10.0.0.5/8", "192.168.1.1/24", "2001:db8::1/32"]
 
 
